@@ -105,6 +105,22 @@ def replay(p):
         dims = tuple(p['dims'])
         bad_n = 0
         tried = 0
+        if what == 'swap' and p.get('p') is not None:
+            # directed: realise the solver's counterexample (weights p_k, overlaps s_k = |<a_k|b_k>|^2) as a separable state:
+            # a_k = |0>, b_k = sqrt(s_k)|0> + sqrt(1-s_k)|1>, weights normalised to trace one
+            d = dims[0]
+            ws = np.clip(np.array(p['p'], dtype=float), 0, None)
+            ss = np.clip(np.array(p['s'], dtype=float), 0, 1)
+            cands = ([ws / ws.sum()] if ws.sum() > 0 else []) + [np.ones(len(ws)) / len(ws)]      # the model may leave the weights at 0: any weights realise the same overlaps
+            for wn in cands:
+                rho = np.zeros((d * d, d * d), dtype=complex)
+                for w, sk in zip(wn, ss):
+                    a = np.zeros(d); a[0] = 1
+                    b = np.zeros(d); b[0] = np.sqrt(sk); b[1] = np.sqrt(1 - sk)
+                    v = np.kron(a, b)
+                    rho += w * np.outer(v, v.conj())
+                if not E.check_swap_witness(rho):
+                    return True, f'check_swap_witness rejects the separable state sum_k p_k |0><0| (x) |b_k><b_k| with p={np.round(wn, 6).tolist()}, |<0|b_k>|^2={ss.tolist()} (dims {dims})'
         for trial in range(p.get('trials', 60)):
             nterm = 1 + trial % 4
             rho = concrete_separable(dims, nterm, rng)
@@ -233,7 +249,8 @@ def run(chk):
                     key='check_swap_witness value', replay=rp)
             sk = [S.sc_var(f'sq{d}_{k}') for k in range(len(ws))]
             tot = sum((w * s_ for w, s_ in zip(ws, sk)), SC(ir.ZERO))
-            chk.add(f'check_swap_witness d={d}: sum_k p_k s_k > eps for p_k, s_k >= 0', pre + [(s_ >= 0).n for s_ in sk], ir.rcmp('lt', eps_node, tot.re), key='check_swap_witness flags a separable state', replay=rp)
+            rp_dir = ('c05', lambda m, d=d, ws=ws, sk=sk: {'what': 'swap', 'dims': [d, d], 'p': [float(m.get(w.re.val, 0)) for w in ws], 's': [float(m.get(s_.re.val, 0)) for s_ in sk]})
+            chk.add(f'check_swap_witness d={d}: sum_k p_k s_k > eps for p_k, s_k >= 0', pre + [(s_ >= 0).n for s_ in sk], ir.rcmp('lt', eps_node, tot.re), key='check_swap_witness flags a separable state', replay=rp_dir)
     # ---- 3. generalized PPT: threshold logic under kernel error
     for dims in dims_list[:2]:
         chk.configurations += 1
